@@ -391,6 +391,13 @@ def join_specs(h1, h2):
     return None
 
 
+REGION_INVARIANTS = {}   # ownership region of a dict -> [python expressions over VALUE]: assumed data invariant of its values
+
+
+def region_invariant(region, *exprs):
+    REGION_INVARIANTS.setdefault(region, []).extend(exprs)
+
+
 CLASS_INVARIANTS = {}   # class -> [(field, python constant)]
 
 
